@@ -34,7 +34,8 @@ func (c03) Info() core.Info {
 		Title: "Row-at-a-time and batch iteration give the same result at any batch size",
 		Level: "exploration",
 		Rule: "statements = select-list x where x order x limit (and aggregate x group x where x order x limit) from pools covering every scalar function, every operator, list/JSON indexing, aliases referenced by WHERE/ORDER/later fields and every aggregate function; stores of sizes 0,1,B-1,B,B+1,2B,2B+1,3B+1 in numeric, mixed-text, CSV and JSON-valued variants, for B in {1,2,3} plus B=32 on 65/70-pair stores (thorough: two extra fields, B=5). Each statement is drained with Next and with Batch on equal stores. " +
-			"Oracle: batch ok => row ok; both ok => canonical rows equal position by position (with ORDER BY: equal multisets inside maximal runs of equal order keys). Non-trivial: both complete with >=1 row, or exactly one fails. Distinct: (statement, store, B).",
+			"Oracle: batch ok => row ok; both ok => canonical rows equal position by position (with ORDER BY: equal multisets inside maximal runs of equal order keys). Non-trivial: both complete with >=1 row, or exactly one fails. Distinct: (statement, store, B)." +
+			" Family nk: 32 numeric constructs (IN over integer / float / mixed / computed lists, six comparisons, BETWEEN, arithmetic then =) x 8 left operands of every numeric kind, on the integer and the mixed-number stores, as field, as filter and under ORDER BY.",
 		Assumptions: []string{"batch failing where row succeeds is allowed (row mode short-circuits & and |)", "columns compared by content via the canonical column form (DESIGN.md §3.2)"},
 	}
 }
